@@ -48,7 +48,9 @@ func runGrow(t ev.Failer, c *ev.Collector, srv *t38.Srv, g growCase) (labels []s
 	}
 	defer ctl.Close()
 	assign := strings.ReplaceAll(g.Tmpl, "$N", g.Name)
-	denied := func(v t38.Value) bool { return v.IsErr() && strings.Contains(v.Str, "attempt to create global variable") }
+	denied := func(v t38.Value) bool {
+		return v.IsErr() && strings.Contains(v.Str, "attempt to create global variable")
+	}
 
 	// growth by depth: one search holding g.N interpreters at once
 	if v, err := ctl.Do("SET", "grow", "o", "POINT", "1", "2"); err != nil || v.IsErr() {
